@@ -103,6 +103,13 @@ fn main() {
             let hl = args.num("hist-len", 300) as usize;
             for_flavours!("all", F, { container::run::<F>(&mut rep, nk, depth, random, hl, shard, nshards, &mut rng) });
         }
+        "leak" => {
+            let max_n = args.num("max-n", 2) as usize;
+            let max_e = args.num("max-e", 2) as usize;
+            let random = args.num("random", 100) / nshards / 4 + 1;
+            let sel = args.str("flavours", "all");
+            for_flavours!(sel.as_str(), F, { leak::run::<F>(&mut rep, max_n, max_e, random, shard, nshards, &mut rng) });
+        }
         "replay" => {
             let path = args.str("file", "");
             let txt = std::fs::read_to_string(&path).expect("cannot read replay file");
@@ -129,11 +136,15 @@ fn main() {
                 "container" => {
                     for_flavours!(fl.as_str(), F, { reproduced |= container::replay::<F>(r) });
                 }
+                "leak" => {
+                    for_flavours!(fl.as_str(), F, { reproduced |= leak::replay::<F>(r) });
+                }
                 k => println!("replay kind {} not supported by this binary", k),
             }
             println!("{}", if reproduced { "REPRODUCED" } else { "NOT REPRODUCED" });
             std::process::exit(if reproduced { 1 } else { 0 });
         }
+        "noop" => {}
         _ => {
             eprintln!("usage: gv <seq|replay> ...");
             std::process::exit(2);
